@@ -18,7 +18,7 @@ import (
 //   rt <writefile|writereader|safewrite|safeexisting> <path-hex> <size> <seed>   (oracle only)
 // ---------------------------------------------------------------------------------------
 
-var c17Stacks = []string{"mem", "os", "bp", "cow"}
+var c17Stacks = []string{"mem", "os", "bp", "cow", "cache0", "cache1h"}
 
 func genBytes(size int, seed int) []byte {
 	b := make([]byte, size)
@@ -49,15 +49,16 @@ func c17RunImpl(c corr.Case) []string {
 				}
 				st = NewStack(t[1])
 				return "case"
-			case "contains":
+			case "contains", "containsgen":
 				k++
 				name := fmt.Sprintf("/d/f%d", k)
 				st.Base.MkdirAll(st.P("/d"), 0o755)
-				if err := afero.WriteFile(st.Base, st.P(name), corr.UnHex(t[1]), 0o644); err != nil {
+				content, needles := c17Content(t)
+				if err := afero.WriteFile(st.Base, st.P(name), content, 0o644); err != nil {
 					return "setup-failed:" + err.Error()
 				}
 				var ns [][]byte
-				for _, h := range t[2:] {
+				for _, h := range needles {
 					ns = append(ns, corr.UnHex(h))
 				}
 				var got bool
@@ -123,14 +124,28 @@ func c17RunImpl(c corr.Case) []string {
 	return out
 }
 
+// c17Content expands a contains / containsgen line into (content, needle hex tokens)
+func c17Content(t []string) ([]byte, []string) {
+	if t[0] == "contains" {
+		return corr.UnHex(t[1]), t[2:]
+	}
+	content := bytes.Repeat([]byte{byte(atoi(t[2]))}, atoi(t[1]))
+	for _, q := range [][2]string{{t[3], t[4]}, {t[5], t[6]}} {
+		if off := atoi(q[0]); off < len(content) {
+			copy(content[off:], corr.UnHex(q[1]))
+		}
+	}
+	return content, t[7:]
+}
+
 func c17Oracle(c corr.Case, impl []string) (string, int) {
 	for i, line := range c.Lines {
 		t := strings.Fields(line)
 		switch t[0] {
-		case "contains":
-			content := corr.UnHex(t[1])
+		case "contains", "containsgen":
+			content, nds := c17Content(t)
 			want := false
-			for _, h := range t[2:] {
+			for _, h := range nds {
 				n := corr.UnHex(h)
 				if len(n) > 0 && bytes.Contains(content, n) {
 					want = true
@@ -151,13 +166,13 @@ func c17Oracle(c corr.Case, impl []string) (string, int) {
 // straddle: does some occurrence of a needle cross a multiple of half (= 2·L)?  short: is the last chunk short?
 func c17Facts(line string) (straddle, short, zero bool) {
 	t := strings.Fields(line)
-	if t[0] != "contains" {
+	if t[0] != "contains" && t[0] != "containsgen" {
 		return
 	}
-	content := corr.UnHex(t[1])
+	content, nds := c17Content(t)
 	L := 0
 	var ns [][]byte
-	for _, h := range t[2:] {
+	for _, h := range nds {
 		n := corr.UnHex(h)
 		ns = append(ns, n)
 		if len(n) > L {
@@ -205,7 +220,7 @@ func c17Classify(c corr.Case, impl []string, hist map[string]int) {
 		if t[0] == "case" {
 			hist["stack:"+t[1]]++
 		}
-		if t[0] == "contains" {
+		if t[0] == "contains" || t[0] == "containsgen" {
 			s, sh, z := c17Facts(l)
 			if s {
 				hist["branch:straddle"]++
@@ -305,6 +320,49 @@ func c17Exhaustive(tier string) []corr.Case {
 	return cases
 }
 
+// c17Large: a needle placed so that it straddles, ends at, or starts at offsets k·p − j for block
+// sizes p that a buffered reader may use, j up to (k+1)·L: whatever the chunking of the reader, a
+// match across a chunk boundary is found; and the two halves of a needle placed p ± d apart are not
+// a match.
+func c17Large(tier string) []corr.Case {
+	var cases []corr.Case
+	ps := []int{512, 1024, 4096}
+	if tier == "thorough" {
+		ps = []int{256, 512, 1024, 2048, 4096, 8192, 16384, 32768, 65536}
+	}
+	needles := [][]byte{[]byte("N"), []byte("NE"), []byte("NEE"), []byte("NEEDLE"), bytes.Repeat([]byte("Nd"), 40)}
+	for _, p := range ps {
+		for _, nd := range needles {
+			L := len(nd)
+			var lines []string
+			for k := 1; k <= 3; k++ {
+				for j := 0; j <= (k+1)*L+1 && j <= 4*L+8; j++ {
+					off := k*p - j
+					if off < 0 {
+						continue
+					}
+					total := off + L + 5 + (j*7)%40
+					lines = append(lines, fmt.Sprintf("containsgen %d 120 %d %s 0 - %s", total, off, corr.Hex(nd), corr.Hex(nd)))
+					if L >= 2 {
+						// near miss: the two halves of the needle a block apart (never a match)
+						h1, h2 := nd[:L/2], nd[L/2:]
+						lines = append(lines, fmt.Sprintf("containsgen %d 120 %d %s %d %s %s", total+p, off, corr.Hex(h1), off+p-2*L+L/2, corr.Hex(h2), corr.Hex(nd)))
+					}
+				}
+			}
+			for len(lines) > 0 {
+				n := 60
+				if n > len(lines) {
+					n = len(lines)
+				}
+				cases = append(cases, corr.Case{Lines: append([]string{"case mem"}, lines[:n]...)})
+				lines = lines[n:]
+			}
+		}
+	}
+	return cases
+}
+
 func c17Random(r *corr.Rand, tier string) []corr.Case {
 	n := 300
 	maxLen := 4096
@@ -379,7 +437,7 @@ func c17Corpus() []corr.Case {
 func C17() *corr.Engine {
 	return &corr.Engine{
 		ID: "C17", DriverEngine: "contains",
-		Corpus: c17Corpus, Exhaustive: c17Exhaustive, Random: c17Random,
+		Corpus: c17Corpus, Exhaustive: func(tier string) []corr.Case { return append(c17Exhaustive(tier), c17Large(tier)...) }, Random: c17Random,
 		RunImpl: c17RunImpl, Oracle: c17Oracle, NonTrivial: c17NonTrivial, Classify: c17Classify,
 		Rule: "contains cases: exhaustive small alphabets/needle placements + random; non-trivial = a match straddles a 2L window boundary, or the last chunk is short, or the case holds a write/read round trip; distinct by script hash",
 		Signature: func(c corr.Case, impl []string, what string, line int) string {
